@@ -37,7 +37,7 @@ Value caseJson(const sess::Session& s, const sess::RunResult* r) {
         for (size_t i = start; i < r->log.size(); i++) a.push(std::string(1, r->log[i].dir) + " " + r->log[i].line);
         k["transcript_tail"] = a;
         k["exit"] = r->exitDesc;
-        k["stderr"] = r->stderrText.substr(0, 6000);
+        k["stderr"] = r->stderrText.substr(0, 24000);
     }
     return k;
 }
@@ -53,7 +53,16 @@ void runSession(const std::string& sub, const sess::Session& s, vh::Stats& st, i
         if (r.stderrText.find("ThreadSanitizer") != std::string::npos) {
             // first line of the report names the kind (data race / lock-order-inversion / ...)
             size_t p = r.stderrText.find("WARNING: ThreadSanitizer");
-            std::string head = r.stderrText.substr(p == std::string::npos ? 0 : p, 1500);
+            // the report without the standard library's own frames (they push the second stack out of a short excerpt)
+            std::string head;
+            {
+                std::istringstream is(r.stderrText.substr(p == std::string::npos ? 0 : p));
+                std::string l;
+                while (std::getline(is, l) && head.size() < 2500) {
+                    if (l.find("/usr/include/c++") != std::string::npos || l.find("libstdc++") != std::string::npos) continue;
+                    head += l + "\n";
+                }
+            }
             vh::fail(caseJson(s, &r), "ThreadSanitizer report: " + head);
         }
         bool inc = false;
@@ -133,7 +142,78 @@ int main(int argc, char** argv) {
         if (gOpts.size() < 10) { fprintf(stderr, "c09: could not read the engine's option list\n"); return 2; }
         sess::GenCfg cfg;
         cfg.concurrencyHeavy = true; cfg.maxCmds = 40; cfg.maxThreads = 8; cfg.minThreads = 2; cfg.maxHash = 64; cfg.maxDepth = 5;
+        // on-demand tablebase hand-over: a 3-man pawnless root is searched without a time limit (the table is generated and stays
+        // resident in the hash memory), then 1..3 searches start from roots with one more (capturable) man, so that several
+        // threads probe the resident table while the root itself is "not suitable" for it
+        auto tbHandOver = [&](Choices& c) {
+            sess::Session s;
+            auto add = [&](const std::string& kind, const std::string& text, int pace = sess::P_NOW, int arg = 0) {
+                sess::Cmd x; x.kind = kind; x.text = text; x.pace = pace; x.paceArg = arg; s.cmds.push_back(x); return &s.cmds.back();
+            };
+            add("setoption", "setoption name Threads value " + std::to_string(c.range(2, 4)));
+            add("setoption", "setoption name Hash value " + std::to_string(c.of(std::vector<int>{8, 16, 32})));
+            struct Pair { const char* tb; std::vector<const char*> next; };
+            static const std::vector<Pair> pairs = {
+                {"8/8/8/4k3/8/8/Q7/1K6 w - - 0 1", {"8/8/8/4k3/8/8/Q2p4/1K6 w - - 0 1", "8/8/8/4k3/8/8/Q4n2/1K6 w - - 0 1", "8/8/4k3/8/Q2p4/8/8/1K6 w - - 0 1"}},
+                {"8/8/8/4k3/8/8/R7/1K6 w - - 0 1", {"8/8/8/4k3/8/8/R4p2/1K6 w - - 0 1", "8/8/8/4k3/8/8/R2b4/1K6 w - - 0 1", "4k3/8/8/8/R3p3/8/8/1K6 w - - 0 1"}},
+                {"1k6/q7/8/8/4K3/8/8/8 b - - 0 1", {"1k6/q7/8/8/4K3/8/q4P2/8 b - - 0 1", "1k6/q7/8/3P4/4K3/8/8/8 b - - 0 1"}},
+            };
+            const Pair& pr = pairs[(size_t)c.pick((int)pairs.size())];
+            add("position", std::string("position fen ") + pr.tb);
+            sess::Cmd* g = add("go", "go infinite"); g->goFen = pr.tb; g->goInfinite = true;
+            add("stop", "stop", sess::P_DEPTH_LONG, c.range(1, 4)); // the first "info depth" line appears when the table has been generated (~0.7 s in the ThreadSanitizer build on an idle machine)
+            int n = c.range(1, 3);
+            for (int i = 0; i < n; i++) {
+                const char* f = pr.next[(size_t)c.pick((int)pr.next.size())];
+                add("position", std::string("position fen ") + f, sess::P_BESTMOVE);
+                int k = c.pick(3);
+                sess::Cmd* g2 = add("go", k == 0 ? "go movetime " + std::to_string(c.range(200, 1200)) : k == 1 ? "go depth " + std::to_string(c.range(5, 9)) : "go infinite");
+                g2->goFen = f; g2->goInfinite = k == 2; g2->goHasLimit = k != 2;
+                if (k == 2) add("stop", "stop", sess::P_DEPTH, c.range(4, 8));
+                if (c.chance(1, 4)) add("isready", "isready", sess::P_NEXT_INFO);
+            }
+            add("quit", "quit", sess::P_BESTMOVE);
+            return s;
+        };
+        // worker-tree churn: with Threads >= 6 a helper thread has helper children; the tree is torn down and rebuilt whenever
+        // the effective number of search threads changes between two searches (Threads, Strength < 1000, UCI_LimitStrength)
+        auto treeChurn = [&](Choices& c) {
+            sess::Session s;
+            auto add = [&](const std::string& kind, const std::string& text, int pace = sess::P_NOW, int arg = 0) {
+                sess::Cmd x; x.kind = kind; x.text = text; x.pace = pace; x.paceArg = arg; s.cmds.push_back(x); return &s.cmds.back();
+            };
+            add("setoption", "setoption name Threads value " + std::to_string(c.range(6, 8)));
+            const std::string start = gen::seedFens()[0];
+            int n = c.range(3, 7);
+            for (int i = 0; i < n; i++) {
+                add("position", "position startpos", i ? sess::P_BESTMOVE : sess::P_NOW);
+                int k = c.pick(3);
+                sess::Cmd* g = add("go", k == 0 ? "go depth " + std::to_string(c.range(1, 3)) : k == 1 ? "go nodes " + std::to_string(c.range(100, 4000)) : "go movetime " + std::to_string(c.range(5, 60)));
+                g->goFen = start; g->goHasLimit = true;
+                int w = c.pick(6);
+                if (w == 0) add("setoption", "setoption name Threads value " + std::to_string(c.range(1, 8)), sess::P_BESTMOVE);
+                else if (w == 1) add("setoption", "setoption name Threads value " + std::to_string(c.range(6, 8)), sess::P_BESTMOVE);
+                else if (w == 2) add("setoption", "setoption name Strength value " + std::to_string(c.flip() ? 1000 : c.range(0, 999)), sess::P_BESTMOVE);
+                else if (w == 3) add("setoption", std::string("setoption name UCI_LimitStrength value ") + (c.flip() ? "true" : "false"), sess::P_BESTMOVE);
+                else if (w == 4) add("isready", "isready", c.flip() ? sess::P_NOW : sess::P_BESTMOVE);
+            }
+            add("quit", "quit", c.chance(1, 3) ? sess::P_NOW : sess::P_BESTMOVE);
+            return s;
+        };
         vh::runProp("sessions", a.cases, 3.0, [&](Choices& c) {
+            int tmpl = c.pick(5);
+            if (tmpl == 1) {
+                sess::Session s = treeChurn(c);
+                st.cls("worker-tree churn session (Threads >= 6, thread count changes between searches)");
+                runSession("sessions", s, st, 1);
+                return;
+            }
+            if (tmpl == 0) {
+                sess::Session s = tbHandOver(c);
+                st.cls("tablebase hand-over session (resident on-demand table probed from a larger root)");
+                runSession("sessions", s, st, 1);
+                return;
+            }
             sess::Session s;
             sess::Cmd t; t.kind = "setoption"; t.text = "setoption name Threads value " + std::to_string(c.range(2, 8)); s.cmds.push_back(t);
             sess::Session rest = sess::genSession(c, gOpts, cfg);
